@@ -100,3 +100,23 @@ claim("C18",
       "Trusted: rustc MIR; std str API semantics (len/find/char_indices in bytes, chars().count() in code points); strings produced by numeric "
       "formatting are ASCII. Documented miss: `offset +- constant` after a search is accepted.",
       "DESIGN.md §2 C18")
+claim("C19",
+      "MIR decision tables of the format-directive parser and dispatcher; unit inference for widths; concrete-key bound on fmt arguments; concrete-cursor walk of the argument state machine",
+      "Decides structural clauses of C19, not digit-exact rendering: (R1) the conversion-letter table over every interval class of `char`, the "
+      "flag-character table, and the ConvType x value-type dispatch (numeric conversions reject non-numbers); (R2) field widths are counted in "
+      "code points (no byte/char mixing in the padding arithmetic); (R3) every run-time width/precision reaching core::fmt is bounded and `*` "
+      "values go through the exact u32 conversion, never an `as` cast; (R4) an argument is consumed only behind the cursor<len guard and "
+      "left-over arguments are an error.",
+      "Trusted: rustc MIR; the printf directive alphabet in rules/c19.py; core::fmt's u16 limit for width/precision. Rounding, exponent form and "
+      "%g shape are value-level and not decided.",
+      "DESIGN.md §2 C19")
+claim("C20",
+      "MIR decision table of the JSON string lexer vs RFC 8259; unit inference for byte indices; finiteness typestate; who-calls of the object builder",
+      "Decides structural clauses of C20, not agreement with the standard functions: (R1) std.parseJson's string lexer accepts exactly the raw "
+      "characters RFC 8259 §7 allows and maps exactly the escape letters \" \\ / b f n r t, whitespace is {space,tab,LF,CR}, digit classes are "
+      "0-9/1-9 (tables over every interval class of `char`); (R2) the radix parsers never slice the digit string at a non-boundary; (R3) numbers "
+      "parsed from JSON/YAML/radix text pass a finiteness gate before becoming values; (R4) both document parsers build objects only through the "
+      "fallible insert whose failure becomes a repeated-field error.",
+      "Trusted: rustc MIR; RFC 8259 tables in rules/c20.py; saphyr-parser (YAML events) is an external leaf. Base64/UTF-8/digest values, "
+      "decoder-inverts-encoder and YAML/JSON agreement are value-level and not decided.",
+      "DESIGN.md §2 C20")
